@@ -309,6 +309,50 @@ Theorem C03_dispatcher_finished_thread_logged_its_program :
 Proof. exact CLDispOrder.finished_thread_logged_its_program. Qed.
 Print Assumptions C03_dispatcher_finished_thread_logged_its_program.
 
+(* real-time order on the dispatcher machine (CLDispTime.v): a ghost beside the machine stamps every listener-management call
+   with the length of the section log when the call begins, when its section is logged and when the call ends; for every
+   schedule the section of a finished call lies between the call's ends and is its thread's, so a call that had ended when
+   another began precedes it in the log: the explaining sequential run respects the real-time order of the calls.  With
+   linearization (results = the sequential run's) and program order this is linearizability of the listener-management
+   calls of the dispatcher machine *)
+From EV Require CLDispTime.
+
+Theorem C03_dispatcher_calls_take_effect_between_their_ends :
+  forall prog sched,
+    let c := CLDispConc.dcrun (CLDispConc.dinit prog) sched in
+    let G := snd (CLDispTime.trun_g (CLDispConc.dinit prog) CLDispTime.tg0 sched) in
+    Forall (CLDispTime.call_ok (CLDispConc.dlog c)) (CLDispTime.tcalls G).
+Proof. exact CLDispTime.dispatcher_calls_take_effect_between_their_ends. Qed.
+Print Assumptions C03_dispatcher_calls_take_effect_between_their_ends.
+
+Theorem C03_dispatcher_real_time_order_is_respected :
+  forall prog sched t1 b1 p1 e1 t2 b2 p2 e2,
+    let G := snd (CLDispTime.trun_g (CLDispConc.dinit prog) CLDispTime.tg0 sched) in
+    In (t1, b1, p1, e1) (CLDispTime.tcalls G) -> In (t2, b2, p2, e2) (CLDispTime.tcalls G) -> e1 <= b2 -> p1 < p2.
+Proof. exact CLDispTime.dispatcher_real_time_order_is_respected. Qed.
+Print Assumptions C03_dispatcher_real_time_order_is_respected.
+
+(* what call_ok says; and the stamping ghost does not steer the machine *)
+Theorem C03_dispatcher_call_ok_means :
+  forall l t b p e, CLDispTime.call_ok l (t, b, p, e) <-> (b <= p /\ p < e /\ e <= length l /\ CLDispTime.thread_at p l = Some t).
+Proof. intros; reflexivity. Qed.
+Theorem C03_dispatcher_stamps_do_not_steer_the_machine :
+  forall sched c G, fst (CLDispTime.trun_g c G sched) = CLDispConc.dcrun c sched.
+Proof. exact CLDispTime.trun_machine. Qed.
+
+(* non-vacuity: the run of C03_dispatcher_machine_example has five finished calls with these stamps *)
+Example C03_dispatcher_stamps_example :
+  let prog := fun t => match t with
+                       | 0 => [CLDispConc.KSec true (CLDisp.DAdd 7 (SBack 1 0%N)); CLDispConc.KSec false (CLDisp.DOn 7 (SRemove (Some 0)))]
+                       | 1 => [CLDispConc.KSec true (CLDisp.DAdd 7 (SFront 2 0%N))]
+                       | 2 => [CLDispConc.KSec false (CLDisp.DOn 7 (SRemove (Some 0))); CLDispConc.KSec false (CLDisp.DOn 4 SEmpty)]
+                       | _ => []
+                       end in
+  let sched := [2; 2; 2;  0; 0; 0; 0; 0; 0; 0;  0; 0; 0;  1; 1; 1; 1; 1;  0;  1;  0;  1;  0; 0; 0;  2; 2; 2] in
+  rev (CLDispTime.tcalls (snd (CLDispTime.trun_g (CLDispConc.dinit prog) CLDispTime.tg0 sched)))
+  = [(2, 0, 0, 1); (0, 1, 1, 2); (1, 2, 2, 3); (0, 2, 3, 4); (2, 4, 4, 5)].
+Proof. vm_compute. reflexivity. Qed.
+
 (* WHAT A WALK CALLS (CLDispWalk.v).  A ghost runs beside the machine (CLDispWalk.gstep reads the configuration and never
    changes it: CLDispWalk.grun_machine) and projects the machine's steps onto the events of CLTrav: the head read of a walk
    is tinit, its look at a node TVisit, its step to the next node TAdvance, a list section executed by ANY thread on the same
